@@ -265,6 +265,54 @@ func execC17(body json.RawMessage) *kernel.Result {
 	}
 	show := func(h *zygo.SexpHash) string { return reAddrC17.ReplaceAllString(zy.Show(h), "0x#") }
 
+	// records nested inside an instance (e.g. decoded with their own type name) are instances too: each is judged
+	// against the declaration of its struct that was in force when the harness first saw it (right after its creation)
+	nestedDefs := map[*zygo.SexpHash]map[string]string{}
+	var checkNested func(step int, what string, env *zygo.Zlisp, h *zygo.SexpHash, depth int) bool
+	checkNested = func(step int, what string, env *zygo.Zlisp, h *zygo.SexpHash, depth int) bool {
+		if depth > 4 || !strings.HasPrefix(h.TypeName, c17Prefix) {
+			return true
+		}
+		var k int
+		if _, err := fmt.Sscanf(h.TypeName[len(c17Prefix):], "%d", &k); err != nil {
+			return true
+		}
+		def, known := nestedDefs[h]
+		if !known {
+			if m.decl[k] == nil {
+				return true
+			}
+			def = copyDef(m.decl[k])
+			nestedDefs[h] = def
+		}
+		for _, key := range h.KeyOrder {
+			ks, isSym := key.(*zygo.SexpSymbol)
+			if !isSym {
+				fail("F-fields", "non-symbol-key", "step %d (%s): a nested record of struct S%d has a non-symbol key %s", step, what, k, zy.Show(key))
+				return false
+			}
+			val, err := h.HashGet(env, key)
+			if err != nil {
+				continue
+			}
+			t, declared := def[ks.Name()]
+			if !declared {
+				fail("F-fields", what+"-nested", "step %d (%s): a nested record of struct S%d (declared %v when created) has the undeclared field %s: %s", step, what, k, def, ks.Name(), reAddrC17.ReplaceAllString(zy.Show(h), "0x#"))
+				return false
+			}
+			if kind := classifyVal(val); !fits(kind, t) {
+				fail("T-types", what+"-nested", "step %d (%s): a nested record of struct S%d has field %s declared %s but holding a value of kind %s: %s", step, what, k, ks.Name(), t, kind, reAddrC17.ReplaceAllString(zy.Show(h), "0x#"))
+				return false
+			}
+			if nh, isHash := val.(*zygo.SexpHash); isHash {
+				if !checkNested(step, what, env, nh, depth+1) {
+					return false
+				}
+			}
+		}
+		return true
+	}
+
 	checkAll := func(step int, what string) bool {
 		for key, in := range m.inst {
 			if !in.exists {
@@ -273,6 +321,24 @@ func execC17(body json.RawMessage) *kernel.Result {
 			h, ok := readInst(key[0], key[1])
 			if !ok {
 				continue // the variable no longer holds an instance (not judged)
+			}
+			// nested records that are not themselves tracked variables
+			for _, k := range h.KeyOrder {
+				if val, err := h.HashGet(envs[key[0]], k); err == nil {
+					if nh, isHash := val.(*zygo.SexpHash); isHash {
+						tracked := false
+						for k2, in2 := range m.inst {
+							if in2.exists && k2[0] == key[0] {
+								if h2, ok2 := readInst(k2[0], k2[1]); ok2 && h2 == nh {
+									tracked = true
+								}
+							}
+						}
+						if !tracked && !checkNested(step, what, envs[key[0]], nh, 0) {
+							return false
+						}
+					}
+				}
 			}
 			for _, k := range h.KeyOrder {
 				ks, isSym := k.(*zygo.SexpSymbol)
@@ -357,6 +423,24 @@ func execC17(body json.RawMessage) *kernel.Result {
 				}
 				if op.Op == "decode" {
 					js := map[string]string{"int": "7", "float": "2.5", "bool": "true", "string": `\"s\"`, "ints": "[1, 2]", "strs": `[\"a\", \"b\"]`, "empty": "[]", "nil": "null"}[in.Kind]
+					if strings.HasPrefix(in.Kind, "inst") {
+						// a nested record carrying its own type name; sometimes with a member of the wrong kind / not declared
+						var k int
+						fmt.Sscanf(in.Kind[4:], "%d", &k)
+						if m.decl[k] != nil && m.bound[[2]int{e, k}] {
+							inner := ""
+							for fname, ftype := range m.decl[k] {
+								if ftype == "int64" {
+									inner = fmt.Sprintf(`, \"%s\":%s`, fname, []string{"5", `\"bad\"`}[step%2])
+									break
+								}
+							}
+							if step%5 == 0 {
+								inner += `, \"Zed\":1`
+							}
+							js = fmt.Sprintf(`{\"Atype\":\"%s\"%s}`, sn(k), inner)
+						}
+					}
 					if js == "" {
 						usable = false
 						break
@@ -393,8 +477,9 @@ func execC17(body json.RawMessage) *kernel.Result {
 				return res
 			}
 			if o.OK() {
-				if _, isInst := readInst(e, op.Var); isInst {
+				if hh, isInst := readInst(e, op.Var); isInst {
 					m.inst[[2]int{e, op.Var}] = &mInst{env: e, sname: op.Struct, def: copyDef(def), exists: true}
+					nestedDefs[hh] = copyDef(def) // should it later sit inside another record, it keeps this declaration
 				}
 				if !allFit || !allKnown {
 					res.Probe("bad-construction-accepted")
@@ -644,6 +729,10 @@ func genC17(r *kernel.RNG, tier string, i int) interface{} {
 			}
 			if r.Chance(0.1) {
 				op.Inits = append(op.Inits, sInit{Field: "Zed", Kind: "int"})
+			}
+			if len(op.Inits) > 0 && r.Chance(0.15) {
+				// the same field given twice, the second time with an arbitrary kind
+				op.Inits = append(op.Inits, sInit{Field: op.Inits[0].Field, Kind: r.Pick(c17Kinds)})
 			}
 			op.Msgp = r.Chance(0.3)
 			inst[[2]int{e, op.Var}] = op.Struct
